@@ -185,7 +185,7 @@ pub fn generate(cfg: &RunCfg, out: &mut Outcome) -> Scenario {
                         2 => t::pick(&["HEAD", "OPTIONS"]).to_string(),
                         _ => t::pick(&["get", "TRACE", "FOO", ""]).to_string(),
                     };
-                    let acrh = if t::chance(1, 2) { Some(t::pick(&["X-Custom", "content-type, x-a", "Authorization", "X_Trace_Id", "content-type,x_api_key", "X-Api.Version", "Content-Type, X-Client~Build", "a!#$%&'*+.^_`|~0"]).to_string()) } else { None };
+                    let acrh = if t::chance(1, 2) { Some(t::pick(&["X-Custom", "content-type, x-a", "Authorization", "X_Trace_Id", "content-type,x_api_key", "X-Api.Version", "Content-Type, X-Client~Build", "a!#$%&'*+.^_`|~0", "content-type\nx-request-id", "X-A, X-B\nX-C", "x-one\nx-two\nx-three"]).to_string()) } else { None };
                     Req { method: "OPTIONS".into(), path: r.path, acrm: Some(acrm), acrh, kind: format!("preflight/{}", r.kind), origin: 0, name_case: 0 }
                 }
                 _ => Req { method: "OPTIONS".into(), path: r.path, acrm: None, acrh: None, kind: format!("options/{}", r.kind), origin: 0, name_case: 0 },
@@ -355,7 +355,11 @@ fn execute(sc: &Scenario, out: &mut Outcome) {
                 s.push_str(&format!("{}: {m}\r\n", cased("Access-Control-Request-Method")));
             }
             if let Some(h) = &r.acrh {
-                s.push_str(&format!("{}: {h}\r\n", cased("Access-Control-Request-Headers")));
+                // (wave 16) a list-valued field may come as several field lines (RFC 9110 5.3): `\n` in the scenario's value
+                // separates the lines; what is requested is the lines joined in order (C02: repeated headers are joined)
+                for line in h.split('\n') {
+                    s.push_str(&format!("{}: {line}\r\n", cased("Access-Control-Request-Headers")));
+                }
             }
             s.push_str("\r\n");
             cl.send(s.as_bytes(), 0);
@@ -477,7 +481,7 @@ fn execute(sc: &Scenario, out: &mut Outcome) {
                     let acah = resp.header_all("Access-Control-Allow-Headers");
                     let want_h: Option<BTreeSet<String>> = match (&sc.policy.allow_headers, &r.acrh) {
                         (Some(v), _) => Some(v.iter().cloned().collect()),
-                        (None, Some(h)) => Some(set_of(h)),
+                        (None, Some(h)) => Some(set_of(&h.replace('\n', ", "))),
                         (None, None) => None,
                     };
                     match want_h {
